@@ -74,6 +74,18 @@ def _install_invariant(rep):
 def run_shard(spec, rep):
     from pyvaporation.mixtures import Composition, CompositionType, Mixtures
 
+    # a failed call somewhere else in the library must not switch validation off for the rest of the process
+    try:
+        from pyvaporation.mixtures import VLEPoints, fit_vle
+        from .. import bootstrap
+
+        data = VLEPoints.from_csv(bootstrap.repo_root() / "tests" / "VLE_data" / "binary" / "MeOH_DMC.csv")
+        try:
+            fit_vle(data, method="no-such-method")
+        except Exception:
+            rep.count("failed_library_call_before_the_rejection_checks")
+    except Exception:
+        rep.count("vle_data_unavailable")
     inv_state, InvBroken = _install_invariant(rep)
     only = spec.get("only")
     for index in range(spec["n"]):
